@@ -69,6 +69,10 @@ func check(c Case) string {
 			if !p {
 				return "Inverse of zero did not panic (documented to panic)"
 			}
+			p, _ = run.Safe(func() { gf2p16.T(0).Div(0) })
+			if !p {
+				return "Div(0, 0) did not panic (Div is documented to panic when the divisor is zero)"
+			}
 			return ""
 		}
 		inv := gf16.Inv(b)
@@ -91,6 +95,44 @@ func check(c Case) string {
 		want := gf16.Pow(a, uint64(p))
 		if got != want {
 			return fmt.Sprintf("Pow(%#x,%d)=%#x, reference %#x", a, p, got, want)
+		}
+	case "first_inverse", "first_div", "first_pow", "first_matinv", "first_slice", "first_times":
+		// meant to be the first field operation of the process (see TestCheck): no operation may depend on an earlier one
+		a := uint16(c.A)
+		switch c.Op {
+		case "first_inverse":
+			if got := uint16(gf2p16.T(a).Inverse()); got != gf16.Inv(a) {
+				return fmt.Sprintf("as the first field operation of a process: Inverse(%#x)=%#x, reference %#x", a, got, gf16.Inv(a))
+			}
+		case "first_div":
+			if got := uint16(gf2p16.T(1).Div(gf2p16.T(a))); got != gf16.Inv(a) {
+				return fmt.Sprintf("as the first field operation of a process: Div(1,%#x)=%#x, reference %#x", a, got, gf16.Inv(a))
+			}
+		case "first_pow":
+			if got := uint16(gf2p16.T(a).Pow(65534)); got != gf16.Inv(a) {
+				return fmt.Sprintf("as the first field operation of a process: Pow(%#x,65534)=%#x, reference %#x", a, got, gf16.Inv(a))
+			}
+		case "first_times":
+			if got := uint16(gf2p16.T(a).Times(gf2p16.T(a))); got != gf16.Mul(a, a) {
+				return fmt.Sprintf("as the first field operation of a process: Times(%#x,%#x)=%#x, reference %#x", a, a, got, gf16.Mul(a, a))
+			}
+		case "first_matinv":
+			m := gf2p16.NewMatrixFromSlice(2, 2, []gf2p16.T{gf2p16.T(a), 1, 0, 1})
+			inv, err := m.Inverse()
+			if err != nil {
+				return "as the first field operation of a process: Inverse of a regular 2x2 matrix failed: " + err.Error()
+			}
+			if got := uint16(inv.At(0, 0)); got != gf16.Inv(a) {
+				return fmt.Sprintf("as the first field operation of a process: matrix Inverse gives %#x at (0,0), reference %#x", got, gf16.Inv(a))
+			}
+		case "first_slice":
+			in := []byte{byte(a), byte(a >> 8), 1, 0}
+			out := make([]byte, 4)
+			gf2p16.MulByteSliceLE(gf2p16.T(a), in, out)
+			want := gf16.Mul(a, a)
+			if out[0] != byte(want) || out[1] != byte(want>>8) || out[2] != byte(a) || out[3] != byte(a>>8) {
+				return fmt.Sprintf("as the first field operation of a process: MulByteSliceLE(%#x) gives % x", a, out)
+			}
 		}
 	case "pow_sweep":
 		// c.B pseudo-random (base, exponent) pairs from the seed c.A, compared with the table-driven reference power
@@ -213,6 +255,12 @@ func TestCheck(t *testing.T) {
 		}
 		do(c, 1, false)
 		return
+	}
+	// the first field operation of this process differs from shard to shard
+	{
+		ops := []string{"first_inverse", "first_div", "first_pow", "first_matinv", "first_slice", "first_times"}
+		rec.Class("first-operation-of-the-process")
+		do(Case{Op: ops[cfg.Shard%len(ops)], A: uint64(0x1234 + 77*cfg.Shard)}, 1, true)
 	}
 	for _, f := range cfg.RegressFiles() {
 		var c Case
